@@ -37,7 +37,7 @@ def make_server(kind, ka, log, init_out, lsn_out):
         return o[1]
 
     class D(DataProvider):
-        def initialize(self, p, c):
+        def initialize(self, p, c=None):
             log.append(("initialize", p, c))
             return outcome(init_out)
         def set_listener(self, l):
@@ -48,7 +48,7 @@ def make_server(kind, ka, log, init_out, lsn_out):
         def unsubscribe(self, i): pass
 
     class M(MetadataProvider):
-        def initialize(self, p, c):
+        def initialize(self, p, c=None):
             log.append(("initialize", p, c))
             return outcome(init_out)
     if kind == "data":
